@@ -237,8 +237,15 @@ FIX_REVERT_FIRES = {
 }
 
 
+ALLP = ["C%02d" % i for i in range(1, 21)]
+
+
 def all_variants():
     out = list(V)
+    out.append({"id": "eq-all-files-reformatted", "type": "transform", "name": "unparse", "fires": [], "silent": list(ALLP),
+                "note": "every source file replaced by ast.unparse(ast.parse(file)): formatting, comments, quotes change; behaviour does not"})
+    out.append({"id": "eq-all-locals-renamed", "type": "transform", "name": "rename-locals", "fires": [], "silent": list(ALLP),
+                "note": "every local variable of every function renamed (x -> x_): no rule may depend on a local's spelling"})
     for p in sorted(glob.glob(os.path.join(VERIF, "seeded", "fix-reverts", "F*.diff"))):
         k = os.path.basename(p)[:-5]
         out.append({"id": "revert-" + k, "type": "diff", "path": os.path.relpath(p, VERIF), "reverse": True,
